@@ -157,6 +157,21 @@ def sweep(args):
         if len(calls2) == nvec:
             for i in range(nvec):
                 ctx.check('second-sweep-with-the-same-generator-order', Not(ec.same_vec(calls2[i][0], vectors[i])))
+        # lifecycle: the generator is given a NEW plan (other designs, one fewer) and the SAME sweep object runs again:
+        # exactly the generator's current designs, in order
+        n_before = len(prob.h.calls)
+        rec_before = len(prob.individuals)
+        plan = [ec.sym_vector(ctx, 'w%d' % i, prob) for i in range(max(1, nvec - 1))]
+        gen.init([list(v) for v in plan])
+        alg.run()
+        calls3 = prob.h.calls[n_before:]
+        ctx.check('re-run-of-the-same-sweep-after-a-new-plan-count', len(calls3) != len(plan) or len(prob.individuals) - rec_before != len(plan))
+        if len(calls3) == len(plan):
+            for i in range(len(plan)):
+                ctx.check('re-run-of-the-same-sweep-after-a-new-plan-order', Not(ec.same_vec(calls3[i][0], plan[i])))
+                if len(prob.individuals) - rec_before == len(plan):
+                    ctx.check('re-run-of-the-same-sweep-after-a-new-plan-recorded-vector',
+                              Not(ec.same_vec(prob.individuals[rec_before + i].vector, plan[i])))
     return body
 
 
